@@ -332,6 +332,13 @@ def _start_index(tx):
     return (tx.cds[0] if tx.coding else 0) + 3
 
 
+def _is_start_anchor(tx, v):
+    """Pure insertion/deletion anchored on the third base of the start codon (first 3 nt of a non-coding
+    transcript) of ITS OWN transcript: the tool converts such a record in place (end inclusion)."""
+    ts = tx.gene2tx(v.gstart)
+    return ts is not None and v.kind == 'INDEL' and ts == _start_index(tx) - 1
+
+
 def _small_edit(tx, v, off=0, lo=None, hi=None, side=None):
     """Edit of a Small record on the spliced transcript (tx coordinates + off)."""
     ts = tx.gene2tx(v.gstart)
@@ -351,7 +358,8 @@ def _small_edit(tx, v, off=0, lo=None, hi=None, side=None):
     if tx.coding and tx.mrna_end_nf and ts < tx.cds[1] and te > tx.cds[1] - 3:
         must = False
     alt = v.alt
-    return orc.Edit(ts + off, te + off, alt, [v.id], cls, must=must, side=side)
+    return orc.Edit(ts + off, te + off, alt, [v.id], cls, must=must, side=side,
+                    tag='start-anchor' if _is_start_anchor(tx, v) else None)
 
 
 def _nested_alternatives(ref, tx, donor_gene, ds, de, smalls):
@@ -485,7 +493,7 @@ def fusion_backbone(ref, rec: Fusion, recs):
         if v.tx is a:
             e = _small_edit(a, v, side=2)
             if e is not None and e.start >= k and d is not a:
-                e2 = orc.Edit(e.start - k + J, e.end - k + J, e.alt, e.ids, e.cls, must=e.start > k, side=2)
+                e2 = orc.Edit(e.start - k + J, e.end - k + J, e.alt, e.ids, e.cls, must=e.start > k, side=2, tag=e.tag)
                 # start-codon / NF rules of the acceptor transcript do not apply inside a fusion
                 spans = (e.end - e.start) != (v.gend - v.gstart)
                 if spans:
@@ -527,7 +535,8 @@ def circ_backbone(ref, rec: Circ, recs):
                 is_intron = (idx + 1) in rec.introns
                 must = v.gstart >= s + 4 and not is_intron and v.gend < e
                 bb.add(orc.Edit(o + v.gstart - s, o + v.gend - s, v.alt, [v.id],
-                                {'SNV': 'S', 'INDEL': 'I', 'MNV': 'M'}[v.kind], must=must))
+                                {'SNV': 'S', 'INDEL': 'I', 'MNV': 'M'}[v.kind], must=must,
+                                tag='start-anchor' if _is_start_anchor(tx, v) else None))
                 break
     return bb
 
